@@ -8,6 +8,7 @@ from ..r_hygiene import rule_hygiene as _rule_hygiene
 from ..r_canon import rule_closure_order_consumers as _rule_closure_order
 from ..r_stereo import rule_pair_key_symmetry as _rule_pair_key
 from ..r_codebooks import rule_allene_reference_choice as _rule_allene_ref
+from ..r_round9 import rule_morgan_seed_fields as _r9_seed
 
 LEVEL = 'other'
 REFINE = ['chython.algorithms.morgan:_morgan']
@@ -33,3 +34,4 @@ def run(ck, repo):
     _rule_closure_order(ck, repo, 'C01.D3-closure-order')
     _rule_pair_key(ck, repo, 'C01.D6-pair-key-symmetry')
     _rule_allene_ref(ck, repo, 'C01.D3-allene-reference')
+    _r9_seed(ck, repo, 'C01.D6-morgan-seed-fields')
